@@ -23,7 +23,9 @@ class Helper final : public Counter<ObjectT, DefaultDeleter> {
   }
 
   std::size_t GetRef() noexcept final {
-    return this->Get();
+    // callers use the value to conclude that no other holder exists (and then move the stored value out),
+    // so the read has to synchronize with the release in DecRef of the former holders
+    return this->Get(std::memory_order_acquire);
   }
 };
 
